@@ -20,7 +20,11 @@ RULE = ("seeded random parsers: 3-7 declarations (int/str/List[int]/Any argument
         "double target, missing key, prefix overlap or self link), each with 4 inputs through defaults/env/--cfg/"
         "options/parse_object, ~35% of them supplying a value for a target (option, config, object, env, enclosing "
         "group or class spec). Non-trivial = at least one link accepted and the pre-link configuration reached; "
-        "distinct = distinct (declarations, links, input, observation).")
+        "distinct = distinct (declarations, links, input, observation). Plus parser TREES: a top-level parser (plain arguments, "
+        "with links of its own in ~50%, otherwise with NO link_arguments call at all) and two subcommands built from one "
+        "generated parser (plain or class-typed, 1-4 link calls); 4 inputs each that select a subcommand and feed it through "
+        "its options, its own --cfg, the nested section of the top-level --cfg, or parse_object; parse, dump and re-parse all "
+        "go through the TOP parser.")
 TRUSTED = [
     "Coq 8.16.1 kernel + vm_compute",
     "tie/impl/c15_links.py: observation of the real parser (wraps ActionLink.apply_parsing_links in the harness "
@@ -107,6 +111,7 @@ def extra_coverage(tier):
 
 
 REQ = "__required__"
+SUBCOMMANDS_ = ["fit", "test"]
 CLASSES = {
     "Base": [["p", "int", 1], ["q", "int", 2]],
     "Sub": [["p", "int", 10], ["r", "int", 30]],
@@ -324,7 +329,7 @@ def nest(pairs):
     return out
 
 
-def gen_input(rng, decls, links, family):
+def gen_input(rng, decls, links, family, mode=None):
     plain = [d for d in decls if d["kind"] not in ("class", "classlist")]
     classy = [d for d in decls if d["kind"] in ("class", "classlist")]
     tgt_keys = {l["tgt"] for l in links}
@@ -369,7 +374,8 @@ def gen_input(rng, decls, links, family):
             return spec(rng, with_keys=wk)
         return [spec(rng, with_keys=wk) for _ in range(rng.randint(0, 3))]
 
-    mode = "object" if rng.random() < 0.25 else "args"
+    if mode is None:
+        mode = "object" if rng.random() < 0.25 else "args"
     argv, obj = [], {}
     if mode == "object":
         obj = cfg_map()
@@ -433,6 +439,49 @@ def generate(rng, tier):
             cases.append(case)
             if has_list_target and family == "B":
                 cases.append(dict(case, aspect=1))
+    cases += gen_trees(rng, 90 if tier == "quick" else 900)
+    return cases
+
+
+SUBCOMMANDS = ["fit", "test"]
+
+
+def gen_trees(rng, n):
+    """One level of subcommands: a top-level parser (plain arguments; with links of its own or WITHOUT any) and two
+    subcommands built from one generated parser (plain or class-typed arguments, 1-4 link_arguments calls); parse, dump and
+    re-parse all go through the TOP parser. The top-level input selects one subcommand and sets the subcommand's sources
+    (and, for ~35%, its targets) through the subcommand's options / its own --cfg / the nested section of the top-level
+    --cfg or object."""
+    cases = []
+    for _ in range(n):
+        top_decls = gen_parser(rng, "A")
+        top_links = gen_links(rng, top_decls) if rng.random() < 0.5 else []
+        family = "B" if rng.random() < 0.3 else "A"
+        sub_decls = gen_parser(rng, family)
+        # two parsers must both accept the input for a dump to exist: fewer None defaults (a None source is rejected by
+        # the non-lenient source check of apply_parsing_links) than in the flat families
+        for d in top_decls + sub_decls:
+            if d["kind"] in G_TY and d["default"] is None and not d["required"] and rng.random() < 0.8:
+                d["default"] = rand_val(rng, d["kind"])
+        sub_links = gen_links(rng, sub_decls)
+        for _ in range(4):
+            name = rng.choice(SUBCOMMANDS)
+            mode = "object" if rng.random() < 0.3 else "args"
+            x = gen_input(rng, top_decls, top_links, "B", mode)
+            y = gen_input(rng, sub_decls, sub_links, "B", mode)
+            obj = dict(x["obj"])
+            if mode == "object":
+                obj[name] = y["obj"]
+            else:
+                # the nested section of a top-level --cfg also reaches the subcommand
+                for it in x["argv"]:
+                    if it[0] == "cfg" and rng.random() < 0.3:
+                        sec = gen_input(rng, sub_decls, sub_links, "B", "object")["obj"]
+                        if sec:
+                            it[1][name] = sec
+            cases.append(dict(decls=top_decls, links=top_links, aspect=0, full=False, mode=mode, env=x["env"],
+                              argv=x["argv"], obj=obj,
+                              sub={"name": name, "decls": sub_decls, "links": sub_links, "argv": y["argv"] if mode == "args" else []}))
     return cases
 
 
@@ -455,7 +504,7 @@ def observe(cases):
 # cases file and referenced by name in the case terms: a 400-case shard then needs ~4x less memory and time in coqc than
 # with every string spelled out as a list of code points.
 _POOL_STRINGS = (["a", "b", "t", "u", "w", "g", "h", "x", "y", "z", "c", "d", "cs", "p", "q", "r", "l", "nope",
-                  "init_args", "class_path", "zz", "<bool>", "<other>"] + WORDS + ["c15mod." + n for n in CLASSES])
+                  "init_args", "class_path", "zz", "<bool>", "<other>", "subcommand"] + SUBCOMMANDS_ + WORDS + ["c15mod." + n for n in CLASSES])
 _POOL = {}
 for _i, _s in enumerate(dict.fromkeys(_POOL_STRINGS)):
     _POOL[_s] = "c15s%d" % _i
@@ -532,10 +581,21 @@ def term(case, obs):
         items = ["(Opt %s %s)" % (g_key(it[1]), g_val(it[2])) if it[0] == "opt" else "(Cfg %s)" % g_val(it[1]) for it in case["argv"]]
         inp = "(InArgs %s %s)" % (env, g_list(items, "item"))
     rp = obs["reparse"]
-    return ("{| c_classes := %s; c_decls := %s; c_links := %s; c_input := %s; c_full := %s; c_aspect := %s; c_fixed := %s; "
+    sub = case.get("sub")
+    if sub is None:
+        g_sub = "None"
+    else:
+        slinks = ["{| l_src := %s; l_tgt := %s; l_fn := %s |}" % (
+            g_list([g_key(k) for k in l["src"]], "key"), g_key(l["tgt"]), g_opt(None if l["fn"] is None else g_nat(l["fn"])))
+            for l in sub["links"]]
+        sitems = ["(Opt %s %s)" % (g_key(it[1]), g_val(it[2])) if it[0] == "opt" else "(Cfg %s)" % g_val(it[1]) for it in sub["argv"]]
+        g_sub = ("(Some {| sb_name := %s; sb_decls := %s; sb_links := %s; sb_argv := %s; sb_build := %s; sb_required := %s |})" % (
+            gs(sub["name"]), g_list([g_decl(d) for d in sub["decls"]], "decl"), g_list(slinks, "link"), g_list(sitems, "item"),
+            g_list([g_N(b) for b in obs.get("sub_build", [])], "N"), g_list([g_key(k) for k in obs.get("sub_required", [])], "key")))
+    return ("{| c_classes := %s; c_decls := %s; c_links := %s; c_input := %s; c_full := %s; c_aspect := %s; c_fixed := %s; c_sub := %s; "
             "o_build := %s; o_required := %s; o_pre := %s; o_parse := %s; o_dump := %s; o_reparse := %s |}") % (
         _CLASSES_TERM, g_list([g_decl(d) for d in case["decls"]], "decl"), g_list(links, "link"), inp,
-        g_bool(case["full"]), g_N(case["aspect"]), g_N(fixed_mask()),
+        g_bool(case["full"]), g_N(case["aspect"]), g_N(fixed_mask()), g_sub,
         g_list([g_N(b) for b in obs["build"]], "N"), g_list([g_key(k) for k in obs["required"]], "key"),
         g_opt(None if obs["pre"] is None else g_val(obs["pre"])), g_pres(obs["parse"]),
         g_opt(None if obs["dump"] is None else g_val(obs["dump"])), g_opt(None if rp is None else g_pres(rp)))
@@ -543,7 +603,7 @@ def term(case, obs):
 
 # ------------------------------------------------------------------------------------------------ evidence helpers
 def nontrivial_key(case, obs):
-    if 0 not in obs["build"] or obs["pre"] is None:
+    if (0 not in obs["build"] and 0 not in obs.get("sub_build", [])) or obs["pre"] is None:
         return None
     return repr((case, obs["build"], obs["parse"], obs["dump"]))
 
@@ -553,6 +613,10 @@ def category(case, obs):
     for l in case["links"]:
         kinds.add("list" if l["tgt"].startswith("cs.") else "init" if ".init_args." in l["tgt"] else "plain")
     fam = "plain-pipeline" if case["full"] else "class-args"
+    if case.get("sub"):
+        for l in case["sub"]["links"]:
+            kinds.add("sub-list" if l["tgt"].startswith("cs.") else "sub-init" if ".init_args." in l["tgt"] else "sub-plain")
+        fam = "tree/top-links" if case["links"] else "tree/links-only-in-subcommand"
     res = obs["parse"][0] if obs["parse"] else "none"
     rej = "rejected-links" if 1 in obs["build"] else "all-links-accepted"
     return "%s/%s/targets:%s/%s/%s" % (fam, case["mode"], "+".join(sorted(kinds)), rej, res)
@@ -568,7 +632,17 @@ def unc(v):
 
 def describe(case, obs):
     fnames = {v: k for k, v in FN.items()}
+    sub = case.get("sub")
+    extra = {}
+    if sub:
+        extra = {"subcommand (parse/dump/re-parse go through the TOP parser)": {
+            "name": sub["name"], "registered": SUBCOMMANDS,
+            "declarations": ["--%s %s%s" % (d["key"], d["kind"], " required" if d["required"] else " default=%r" % (d["default"],)) for d in sub["decls"]],
+            "link_arguments_calls": ["%s --%s--> %s" % (",".join(l["src"]), fnames.get(l["fn"], "identity"), l["tgt"]) for l in sub["links"]],
+            "argv after the subcommand name": sub["argv"],
+            "observed link_calls": obs.get("sub_build"), "observed required_args": obs.get("sub_required")}}
     return {
+        **extra,
         "declarations": ["--%s %s%s" % (d["key"], d["kind"], " required" if d["required"] else " default=%r" % (d["default"],)) for d in case["decls"]],
         "link_arguments_calls": ["%s --%s--> %s" % (",".join(l["src"]), fnames.get(l["fn"], "identity"), l["tgt"]) for l in case["links"]],
         "input": {"mode": case["mode"], "env": case["env"], "argv": case["argv"], "object": case["obj"]},
@@ -593,6 +667,16 @@ def shrink(case):
         c = copy.deepcopy(case)
         del c["links"][i]
         yield c
+    if case.get("sub"):
+        for i in range(len(case["sub"]["argv"])):
+            c = copy.deepcopy(case)
+            del c["sub"]["argv"][i]
+            yield c
+        for i in range(len(case["sub"]["links"])):
+            c = copy.deepcopy(case)
+            del c["sub"]["links"][i]
+            yield c
+        return
     used = set()
     for l in case["links"]:
         used.update(l["src"])
@@ -621,6 +705,8 @@ META = {
         "C15_link_key_prefix_overlap_refuted, C15_list_item_target_in_dump_refuted and "
         "C15_skipped_link_target_stripped_refuted — kernel-evaluated inputs on which "
         "the unrepaired code violates the property; C15_fixed_dump_list_items_clean for the repaired strip. "
+        "C15_tree_link_invariant and C15_tree_targets_absent_from_dump — one level of subcommands, links in the top "
+        "parser, the subcommand parser or both, parse and dump through the top parser. "
         "Examples show each hypothesis satisfiable by a non-trivial parser/input."),
     "level_note": (
         "The theorems are about the hand-written Gallina model, which is written in the shape of _link_arguments.py (bugs "
@@ -630,7 +716,9 @@ META = {
         "parse_object->links->validate; parsers with class-typed arguments: from the observed pre-link configuration on, "
         "class-value normalisation being C14's subject), and independently that the observation satisfies Spec/C15Spec.v. "
         "Only exercised, not proved: that dump->parse preserves the SOURCE values (C01's subject), type adaptation (identity "
-        "on the tie's value space), env/argv text rendering, subcommands, apply_on='instantiate' (C16), whole-class targets, "
+        "on the tie's value space), env/argv text rendering, the collection phase of parser trees (the configuration the "
+        "top-level apply_parsing_links receives is an observed input), apply_on='instantiate' (C16), whole-class targets, "
+        "subcommands nested deeper than one level, "
         "Namespace->dict conversion by type hint, compute functions with side effects. Trusted: Coq kernel/vm_compute, the "
         "runner tie/impl/c15_links.py (hooks apply_parsing_links in the harness process to read the pre-link configuration), "
         "the Python/Gallina twins of the 9 tie compute functions."),
